@@ -266,6 +266,76 @@ def payload_types(ctx, rng):
                     ctx.fail("deadlock:real-code-blocked-under-the-schedule", case, result)
 
 
+def teardown_vs_sendall(ctx, rng):
+    """Connection loss noticed by the TRANSPORT THREAD (the peer goes away) while a user thread calls sendall:
+    real client/server Transports; the client's transport thread is held inside packetizer.close() in the tail of
+    Transport.run() — i.e. after `active = False` — and sendall / sendall_stderr is called right then.
+    Oracle: if the call returns normally, every byte was handed to the packetizer; otherwise it raised.
+    (A sendall racing the application's OWN Transport.close() is not judged: see META note.)"""
+    import socket
+    import threading
+    from pv import lib_net
+    for stream, mode, n in (("sendall", None, 1000), ("sendall_stderr", 5.0, 300), ("sendall", 0.0, 40000),
+                            ("sendall_stderr", None, 5000)):
+        tc = ts = None
+        try:
+            tc, ts, _sc, _ss, _srv = lib_net.make_pair()
+            chan = tc.open_session(timeout=60)
+            server_chan = ts.accept(60)      # keep it: a dropped Channel object closes itself
+            handed = {"n": 0}
+            real_send = tc.packetizer.send_message
+            real_close = tc.packetizer.close
+            parked, go = threading.Event(), threading.Event()
+
+            def send_message(m, real_send=real_send, handed=handed):
+                if m.asbytes()[0] in (lib_chan.MSG_DATA, lib_chan.MSG_EXT):
+                    handed["n"] += len(lib_chan.payload(m))
+                return real_send(m)
+
+            def close(real_close=real_close, parked=parked, go=go, tc=tc):
+                if threading.current_thread() is tc and not parked.is_set():
+                    parked.set()
+                    go.wait(120)
+                return real_close()
+
+            tc.packetizer.send_message = send_message
+            tc.packetizer.close = close
+            chan.settimeout(mode)
+            ts.close()                           # the peer goes away: the client's transport thread reads EOF
+            if not parked.wait(120):
+                ctx.dist("teardown-gate-not-reached")
+                go.set()
+                continue
+            state = {"transport_active": tc.active, "channel_closed": chan.closed,
+                     "send_window": chan.out_window_size}
+            try:
+                getattr(chan, stream)(b"t" * n)
+                outcome = "returned"
+            except (socket.error, socket.timeout, EOFError, lib_chan._ssh_exception()) as e:
+                outcome = "raised:" + type(e).__name__
+            go.set()
+            case = {"scenario": "peer closes the connection; client transport thread held in the run() tail inside "
+                                "packetizer.close(); user thread calls " + stream,
+                    "timeout_mode": mode, "bytes": n, "state_at_the_call": state, "outcome": outcome,
+                    "bytes_handed_to_the_packetizer": handed["n"]}
+            ctx.case(("teardown", stream, mode, n), True)
+            ctx.dist("teardown-vs-sendall:" + outcome.split(":")[0])
+            if outcome == "returned" and handed["n"] < n:
+                ctx.fail("sendall-returned-but-the-dead-transport-dropped-the-data", case,
+                         "%s(%d bytes) returned normally; %d bytes reached the packetizer (transport.active=%r, "
+                         "channel.closed=%r at the call)" % (stream, n, handed["n"], state["transport_active"],
+                                                              state["channel_closed"]))
+        except Exception as e:  # noqa — a set-up problem of this side scenario must never fail the check
+            ctx.dist("teardown-scenario-skipped:" + type(e).__name__)
+        finally:
+            for t in (tc, ts):
+                try:
+                    if t is not None:
+                        t.close()
+                except Exception:  # noqa
+                    pass
+
+
 def parked_senders(ctx, rng, batches):
     """Two or three threads blocked in sendall / sendall_stderr / send on ONE channel at window 0, then fewer window
     adjustments than sleepers, each leaving window over after the first woken sender is done; both park orders,
@@ -404,11 +474,22 @@ def run(ctx):
     from pv import lib_chanlock
     sites, notifies = lib_chanlock.channel_tables(chmod.Channel)
     ctx.write_generated("ChanLock", lib_chanlock.lean_tables_for(chmod.Channel))
+    # order of the tail of Transport.run() (after the except ladder), from the AST of transport.py
+    from pv import lib_lockdisc
+    from pv.core import REPO
+    tail = [name for name, _guarded in lib_lockdisc.teardown(REPO)["run_tail"]]
+    ctx.write_generated("C25", (
+        "/- GENERATED from the AST of paramiko/transport.py (tail of Transport.run) by pv/props/c25.py — do not edit. -/\n"
+        "namespace PV.Generated.C25\n"
+        "def runTail : List String := [%s]\n"
+        "end PV.Generated.C25\n" % ", ".join('"%s"' % x for x in tail)))
+    ctx.extra["run_tail"] = tail
     ctx.build(extra_modules=["PV.Model.ChanDriver"])
     batches = []
     grid(ctx, ctx.rng, batches)
     parked_senders(ctx, ctx.rng, batches)
     payload_types(ctx, ctx.rng)
+    teardown_vs_sendall(ctx, ctx.rng)
     random_part(ctx, ctx.rng, 12000 if ctx.thorough else 3000, batches)
     c19.compare(ctx, "C25", batches)
 
@@ -424,8 +505,14 @@ META = {
               "wakeup_after_shutdown_raises). C25_witness: before the repair an iteration after shutdown_write changes "
               "nothing at all (endless loop). Several senders parked on one channel: window_adjust_notifies_all (AST fact), "
               "blocked_sendall_is_notified (strict scheduling: a sleeper with window available has a notification "
-              "pending, so every blocked sendall runs again and completes or raises)."),
-    "note": ("'Never loops forever' = no iteration returns to the loop head with the same remainder, so a call makes "
+              "pending, so every blocked sendall runs again and completes or raises). Transport loss: "
+              "channels_unlinked_before_transport_inactive (AST fact on the tail of Transport.run: every channel is "
+              "closed before the transport goes inactive and starts dropping packets), with the concrete schedule "
+              "(transport thread held in packetizer.close(), sendall from a user thread)."),
+    "note": ("Transport loss is judged for loss noticed by the transport thread (peer EOF / DISCONNECT / protocol "
+             "error: the run() tail). A sendall racing the application's OWN Transport.close() hands its message to a "
+             "transport the application has just closed, which drops it: that path is the application's action and is "
+             "not judged. 'Never loops forever' = no iteration returns to the loop head with the same remainder, so a call makes "
              "at most len(data) iterations; an unbounded sleep of a BLOCKING call on an open channel whose peer never "
              "opens the window is blocking, not looping, and is outside the statement. Spurious wake-ups with zero "
              "elapsed time are allowed by the model and do not count as progress or as a loop of sendall itself."),
